@@ -276,9 +276,47 @@ func mutateCode(r *rng, code string) (string, string) {
 var skews = []uint64{0, 0, 1, 1, 2, 2, 3, 5, 9, 10, 10}
 var refusedSkews = []uint64{11, 12, 1000, 1 << 32, 1<<63 - 1, 1 << 63, 1<<63 + 1, 1<<64 - 2, 1<<64 - 1}
 
+// windowGrid: the clipped / wrapped part of the window, systematically (small counters and instants, every skew class,
+// every distance from below the window to twice the skew above it), plus refused skews read as signed / narrowed numbers
+func windowGrid(r *rng, totp bool) []string {
+	var out []string
+	key := genKey(r)
+	ks := hxs(spell(r, key))
+	for _, c := range []uint64{0, 1, 2, 3, 9, 10, 11} {
+		for _, s := range []uint64{0, 1, 2, 3, 10} {
+			for dist := -int64(s + 2); dist <= int64(2*s+2); dist++ {
+				d, a := pick(r, []int{6, 8, 10}), r.intn(3)
+				code := refHOTP(key, c+uint64(dist), d, a)
+				if totp {
+					per := pick(r, []uint64{1, 30, 60})
+					out = append(out, fmt.Sprintf("vtotp %s %s %s %s", ks, hxs(code), timeFields(r, int64(c*per+uint64(r.intn(int(per))))), paramStr(d, per, s, a)))
+				} else {
+					out = append(out, fmt.Sprintf("vhotp %s %s %d %s", ks, hxs(code), c, paramStr(d, 0, s, a)))
+				}
+			}
+		}
+	}
+	for _, s := range refusedSkews {
+		for _, c := range []uint64{0, 5, 1 << 31, 1<<63 + 5, 1<<64 - 1} {
+			for _, off := range []uint64{0, s, -s, uint64(int32(s)), uint64(uint8(s)), -uint64(uint8(s)), 1} {
+				code := refHOTP(key, c+off, 6, 0)
+				if totp {
+					if c < 1<<61 {
+						out = append(out, fmt.Sprintf("vtotp %s %s %s %s", ks, hxs(code), timeFields(r, int64(c*30)), paramStr(6, 30, s, 0)))
+					}
+				} else {
+					out = append(out, fmt.Sprintf("vhotp %s %s %d %s", ks, hxs(code), c, paramStr(6, 0, s, 0)))
+				}
+			}
+		}
+	}
+	return out
+}
+
 func genC03(r *rng, n int, hostile bool) []string {
 	var out []string
 	out = append(out, rareOps(r)...)
+	out = append(out, windowGrid(r, false)...)
 	for i := 0; i < n; i++ {
 		key := genKey(r)
 		d, a := genDigits(r, hostile), genAlgo(r, hostile)
@@ -352,6 +390,7 @@ func genC03(r *rng, n int, hostile bool) []string {
 
 func genC04(r *rng, n int, hostile bool) []string {
 	var out []string
+	out = append(out, windowGrid(r, true)...)
 	for i := 0; i < n; i++ {
 		key := genKey(r)
 		d, a := genDigits(r, hostile), genAlgo(r, hostile)
